@@ -53,8 +53,8 @@ CLAIMS.update({
                     "kInvalidDisplacement and stay counted, the unresolved counter drops by exactly the resolved ones, invalid label/section/double bind are rejected without change. The offset "
                     "codecs it relies on (encode_offset32/64, write_offset) are proved for all inputs. CodeHolder::resolve_cross_section_fixups is verified likewise: every pending cross-section reference is patched with (target section offset + label "
                     "offset) - (source section offset + site) + rel, overflowing or unrepresentable ones stay listed and counted, the count drops by exactly the resolved ones. "
-                    "Bounded: 1 label, <= 1 (quick) / 2 (thorough) pending fixups, 2 sections, 1 relocation. Partial: the reference sites inside the assemblers' _emit (which compute rel and "
-                    "choose the format) and new_fixup are not under contract.",
+                    "Bounded: 1 label, <= 1 (quick) / 2 (thorough) pending fixups, 2 sections, 1 relocation. The fixup iterator (next / resolve_and_next: the link invariant, unlinking, pool release) and new_fixup (recorded as given, head of the chain, counted once, failure changes nothing) are "
+                    "proved completely. Partial: the reference sites inside the assemblers' _emit (which compute rel and choose the format) are not under contract.",
             "note": COMMON_NOTE},
     "C04": {"category": "model_checking",
             "text": "CodeHolder::relocate_to_base is verified per relocation entry: kAbsToAbs / kRelToAbs / kAbsToRel / kX64AddressEntry(rel32-reachable) patch exactly the value their type prescribes "
